@@ -46,6 +46,16 @@ Theorem C04_while_until_clause :
   exec_stmt prof (S f) (SUntil c b) xs e = after_tick e (exec_loop prof f true c b xs).
 Proof. exact while_until_clause. Qed.
 
+(** break leaves and continue restarts only the innermost enclosing loop: a loop entered with a normal
+    flag always ends with a normal flag or a pending return, for every body — the break/continue flag
+    raised anywhere inside (through any nesting of ifs, which pass flags through, and blocks, which
+    skip their remaining statements) is consumed by this loop and never reaches an enclosing one *)
+Theorem C04_loop_exit_flag :
+  forall prof f invert c b xs e xs' e',
+  xflag xs = Normal -> exec_loop prof f invert c b xs e = XOk xs' e' ->
+  xflag xs' = Normal \/ xflag xs' = Returning.
+Proof. exact loop_exit_flag. Qed.
+
 (** statements run in order; once a break/continue/return has set the flag the rest of the block is skipped *)
 Theorem C04_stmts_clause :
   forall prof f s t xs e,
